@@ -636,6 +636,7 @@ def store6(ctx) -> List[Ob]:
             if ap is not None and len(ap[0]) == 1 and isinstance(ap[0][0], ast.Name) and ap[1] is c:
                 x = ap[0][0].id
                 carriers = _carrier_names(fn.node, x)
+                cond_props: list = []
 
                 def is_prop(node) -> bool:
                     # an `if isinstance(carrier, RegionBlock):` whose body calls the propagator on it
@@ -656,7 +657,12 @@ def store6(ctx) -> List[Ob]:
                         return False
                     for k in A.walk_no_nested(ast.Module(s.body, [])):
                         if isinstance(k, ast.Call) and (A.dotted(k.func) or "").split(".")[-1] == prop.name and k.args and isinstance(k.args[0], ast.Name) and k.args[0].id in carriers:
-                            return True
+                            # the propagation itself must be unconditional inside the region guard
+                            # (loops over the renamed names are fine, further `if`s are not)
+                            extra = [a for a in A.ancestors(k) if isinstance(a, (ast.If, ast.IfExp, ast.While, ast.Try)) and a is not s and any(x is s for x in A.ancestors(a))]
+                            if not extra:
+                                return True
+                            cond_props.append((k, extra[0]))
                     return False
 
                 def is_store(node) -> bool:
@@ -683,8 +689,12 @@ def store6(ctx) -> List[Ob]:
                 unprop = [z for z in reach if is_store(z)]
                 # paths that stop at a later retarget are judged at that retarget
                 if unprop:
+                    extra_txt = ""
+                    if cond_props:
+                        k_, e_ = cond_props[0]
+                        extra_txt = f" (the call at line {A.lineno(k_)} is only made under '{A.unparse(getattr(e_, 'test', e_))[:50]}')"
                     out.append(bad("STORE-6", fn.qualname, key, where,
-                                   f"the receiver may be a RegionBlock ({why}); its result is stored (line {unprop[0].lineno}) on a path without `if isinstance(.., RegionBlock): {prop.name}(..)`: the region's exiting block keeps the old target name",
+                                   f"the receiver may be a RegionBlock ({why}); its result is stored (line {unprop[0].lineno}) on a path without an unconditional `if isinstance(.., RegionBlock): {prop.name}(..)`{extra_txt}: the region's exiting block keeps the old target name",
                                    [f"carriers {sorted(carriers)}"]))
                 else:
                     # pair check: the propagator renames the same (old, new) pair as the list edit
@@ -1185,6 +1195,30 @@ def store11(ctx) -> List[Ob]:
                 out.append(ok("STORE-11", m.qualname, key, where, f"{fld} = {params[0]} unchanged"))
             else:
                 out.append(bad("STORE-11", m.qualname, key, where, f"{c.name}.{mname}: {why}: arity / order of the successors changes behind the caller's back"))
+    # each API method rewrites exactly its own field(s)
+    allowed = {"replace_jump_targets": {"_jump_targets", "branch_value_table"}, "replace_backedges": {"backedges"}, "declare_backedge": {"backedges"}}
+    for c in block_classes(prog):
+        for mname, okf in allowed.items():
+            m = c.methods.get(mname)
+            if m is None:
+                continue
+            for r in [x for x in A.walk_no_nested(m.node) if isinstance(x, ast.Call) and (A.dotted(x.func) or "").split(".")[-1] == "replace"]:
+                flds = {k.arg for k in r.keywords if k.arg}
+                key = f"{c.name}.{mname}: fields rewritten"
+                extra = flds - okf
+                if extra:
+                    out.append(bad("STORE-11", m.qualname, key, ctx.where(m, r), f"{c.name}.{mname} also rewrites {sorted(extra)}: a caller that only {mname.replace('_', ' ')}s changes the block's other edge data (successor count / order)"))
+                else:
+                    out.append(ok("STORE-11", m.qualname, key, ctx.where(m, r), f"rewrites only {sorted(flds)}", nontrivial=False))
+    dm = prog.cls("BasicBlock").methods.get("declare_backedge")
+    if dm is not None:
+        key = "BasicBlock.declare_backedge: declares exactly the given target"
+        reps = [x for x in A.walk_no_nested(dm.node) if isinstance(x, ast.Call) and (A.dotted(x.func) or "").split(".")[-1] == "replace"]
+        tp = [p.arg for p in dm.params if p.arg != "self"][0]
+        if reps and all(any(k.arg == "backedges" and isinstance(k.value, ast.Tuple) and [A.unparse(e) for e in k.value.elts] == [tp] for k in r.keywords) for r in reps):
+            out.append(ok("STORE-11", dm.qualname, key, ctx.where(dm), f"backedges=({tp},)"))
+        else:
+            out.append(bad("STORE-11", dm.qualname, key, ctx.where(dm), "declare_backedge does not set backedges to exactly the given target"))
     # the filtered view keeps the order of the stored tuple
     bb = prog.cls("BasicBlock")
     jt = bb.methods.get("jump_targets")
